@@ -42,6 +42,16 @@ var targets = []target{
 	{"anon2", "anonymous-struct-2",
 		func() any { return map[string]any{"q": "y", "r": true} },
 		func() any { return &anon2{} }},
+	{"anonLong1", "anonymous-struct-long-1",
+		func() any {
+			return map[string]any{"firstFieldWithALongName": int64(1), "secondFieldWithALongName": "s", "thirdFieldWithALongName": true, "tailOne": int64(4)}
+		},
+		func() any { return &anonLong1{} }},
+	{"anonLong2", "anonymous-struct-long-2",
+		func() any {
+			return map[string]any{"firstFieldWithALongName": int64(2), "secondFieldWithALongName": "t", "thirdFieldWithALongName": true, "tailTwo": "u"}
+		},
+		func() any { return &anonLong2{} }},
 	{"typesa.Wrap", "embeds-typesa.T",
 		func() any { return map[string]any{"a": int64(2), "b": "w", "w": true} },
 		func() any { return &typesa.Wrap{} }},
